@@ -1990,18 +1990,19 @@ class QuicConnection:
             for cid in self._peer_cid_available
             if cid.sequence_number >= self._peer_retire_prior_to
         ]
-        if (
-            sequence_number >= self._peer_retire_prior_to
-            and sequence_number not in self._peer_cid_sequence_numbers
-        ):
-            self._peer_cid_available.append(
-                QuicConnectionId(
-                    cid=connection_id,
-                    sequence_number=sequence_number,
-                    stateless_reset_token=stateless_reset_token,
-                )
+        if sequence_number not in self._peer_cid_sequence_numbers:
+            quic_connection_id = QuicConnectionId(
+                cid=connection_id,
+                sequence_number=sequence_number,
+                stateless_reset_token=stateless_reset_token,
             )
             self._peer_cid_sequence_numbers.add(sequence_number)
+            if sequence_number >= self._peer_retire_prior_to:
+                self._peer_cid_available.append(quic_connection_id)
+            else:
+                # a connection ID below Retire Prior To must be retired immediately
+                # (RFC 9000 section 19.15)
+                retire.append(quic_connection_id)
 
         # retire previous CIDs
         for quic_connection_id in retire:
